@@ -41,9 +41,10 @@ structure World where
   regs : List Reg
   nreg : Nat
   blks : List (Nat × Blk)
+  failNext : Bool := false      -- the next request to the base allocator fails (op `failnext`)
 deriving Inhabited
 
-def World.init : World := { slots := [(0, .trk)], regs := [], nreg := 0, blks := [] }
+def World.init : World := { slots := [(0, .trk)], regs := [], nreg := 0, blks := [], failNext := false }
 
 def World.slot (w : World) (i : Nat) : Option AK := (w.slots.find? (·.1 == i)).map (·.2)
 def World.setSlot (w : World) (i : Nat) (k : AK) : World :=
@@ -67,6 +68,7 @@ def trkMax : Nat := 2 ^ 40
 
 /-- `cx_alloc(base, len)` as the harness's base allocator behaves -/
 def trkAllocO (w : World) (len mis : Nat) : World × Option Nat :=
+  if w.failNext then ({ w with failNext := false }, none) else
   if len > trkMax then (w, none) else
   let (w', a) := trkAlloc w len mis
   (w', some a)
@@ -92,8 +94,9 @@ def cxAllocW : Nat → World → Nat → Nat → Nat → World × Option Nat
     | some .trk => trkAllocO w len mis
     | some (.talloc root cx kids) =>
       if len > tallocMaxLen then (w, none) else
-      let (w', a) := trkAlloc w (alignUp len 8 + tallocHdr) mis
-      (w'.setSlot slot (.talloc root cx (kids ++ [(a, len)])), some (a + tallocHdr))
+      (match trkAllocO w (alignUp len 8 + tallocHdr) mis with
+       | (w', some a) => (w'.setSlot slot (.talloc root cx (kids ++ [(a, len)])), some (a + tallocHdr))
+       | (w', none) => (w', none))
     | some (.pool p parent buf) =>
       let (w1, pa) := match cxAllocReq p len with
         | some req => cxAllocW fuel w parent req mis
@@ -146,10 +149,12 @@ def cxReallocW : Nat → World → Nat → Nat → Nat → Nat → World × Opti
        | none => (w, none)
        | some (h, olen) =>
          if olen = len then (w, some ptr) else
-         let (w1, a) := trkAlloc w (alignUp len 8 + tallocHdr) mis
-         let w2 := trkFree w1 h
-         (w2.setSlot slot (.talloc root cx (kids.map fun k => if k.1 == h then (a, len) else k)),
-          some (a + tallocHdr)))
+         (match trkAllocO w (alignUp len 8 + tallocHdr) mis with
+          | (w1, some a) =>
+            let w2 := trkFree w1 h
+            (w2.setSlot slot (.talloc root cx (kids.map fun k => if k.1 == h then (a, len) else k)),
+             some (a + tallocHdr))
+          | (w1, none) => (w1, none)))
     | some (.pool p parent buf) =>
       let (w1, pa) := match reallocReq p ptr len with
         | some req => cxAllocW fuel w parent req mis
